@@ -88,7 +88,16 @@ func (w *vC07) step() {
 		cs.receiveRoutine(0)
 	} else {
 		go cs.receiveRoutine(0)
-		time.Sleep(150 * time.Millisecond)
+		// wait until every queue has been empty for a while (not a fixed sleep: the machine may be loaded)
+		quiet := 0
+		for i := 0; i < 2000 && quiet < 20; i++ {
+			if len(cs.peerMsgQueue) == 0 && len(cs.internalMsgQueue) == 0 && len(w.ticker.ch) == 0 {
+				quiet++
+			} else {
+				quiet = 0
+			}
+			time.Sleep(5 * time.Millisecond)
+		}
 		close(cs.Quit)
 		<-cs.done
 	}
